@@ -50,6 +50,36 @@ spec fn eval_allowed(st: AirStmt) -> bool {
     !(st is Branch) && !(st is Interrupt) && !(st is RawWord)
     && (st matches AirStmt::Trap { trap_vect } ==> trap_vect != 0x25 && 0x20 <= trap_vect <= 0x27)
 }
+/// the tokens of a one-line text (lexer + preprocess_simple: the text layer is not deductively verified)
+uninterp spec fn simple_tokens(src: &'static str, line: u16) -> Seq<Token>;
+/// C15: `st0` is THE statement the text denotes when it is numbered `n`: exactly one well-formed instruction (operands in ISA
+/// order taken from the text's tokens, a label operand as named) or trap, and nothing after it
+spec fn text_denotes(src: &'static str, n: u16, table: Map<Seq<char>, u16>, st0: AirStmt) -> bool {
+    let toks = simple_tokens(src, n);
+    toks.len() > 0 && !(st0 is RawWord) && match toks[0].kind {
+        TokenKind::Instr(k) => accepts(k, toks.skip(1)) matches Some(m) && stmt_ok(k, st0, toks.skip(1), n, src, table) && toks.len() == m + 1,
+        TokenKind::Trap(k) => match trap_vector_spec(k) {
+            Some(v) => st0 == (AirStmt::Trap { trap_vect: v }) && toks.len() == 1,
+            None => toks.len() == 2 && num_ok(toks[1], Bits::Unsigned(8)) && st0 == (AirStmt::Trap { trap_vect: low8(num_of(toks[1])) }),
+        },
+        _ => false,
+    }
+}
+/// `st` is `st0` with its label operand (if any) resolved through the symbol table
+spec fn stmt_resolved(st0: AirStmt, st: AirStmt, table: Map<Seq<char>, u16>) -> bool {
+    match stmt_label(st0) {
+        None => st == st0,
+        Some(l) => resolved(l, table) matches Some(rl) && st == with_label(st0, rl),
+    }
+}
+/// names the pair of witnesses of eval_inner's postcondition
+spec fn eval_witness(st0: AirStmt, st: AirStmt) -> bool { true }
+/// the link register of JSR / JSRR / CALL under eval is left unspecified by C15 (is the instruction "at" the PC or before it?)
+spec fn is_linking(st: AirStmt) -> bool { st is JumbSub || st is JumpSubReg || st is Call }
+spec fn mstate_eq_but_r7(a: MState, b: MState) -> bool {
+    a.mem == b.mem && a.pc == b.pc && a.cc == b.cc && a.orig == b.orig && a.psr == b.psr
+    && a.reg.len() == b.reg.len() && forall|i: int| 0 <= i < a.reg.len() && i != 7 ==> a.reg[i] == b.reg[i]
+}
 /// statement number given to the evaluated instruction: the statement just before the current PC
 spec fn eval_number(s: RunState) -> u16 { ((s.pc as int - s.orig as int) % 0x10000) as u16 }
 
@@ -118,6 +148,7 @@ impl AsmParser {
     #[verifier::external_body]
     fn new_simple(src: &'static str, line: u16) -> (r: Result<AsmParser>)
         ensures r matches Ok(p) ==> pstream_ok(p) && p.line == line && p.src == src
+            && p.toks.all() == simple_tokens(src, line) && p.toks.pos() == 0
             && (forall|i: int| 0 <= i < p.toks.all().len() ==> !((#[trigger] p.toks.all()[i]).kind is Byte || p.toks.all()[i].kind is Breakpoint))
             && (forall|i: int| 0 <= i < p.toks.all().len() ==> ((#[trigger] p.toks.all()[i]).kind matches TokenKind::Instr(k)
                     ==> (k is Push || k is Pop || k is Call || k is Rets) ==> features::stack_spec())),
@@ -143,8 +174,10 @@ impl AsmLine {
 
 //@fn src/debugger/eval.rs - eval_inner ret=r props=C15
 //@symtab
+//@suball <<<return Ok(());>>> ==> <<<proof { assert(eval_witness(stmt, stmt)); } return Ok(());>>>
 //@sub <<<state.execute(instr);>>> ==> <<<proof {
-        assert(eval_allowed(asm.stmt)); // names the witness of the postcondition's `exists`
+        assert(eval_allowed(asm.stmt));
+        assert(eval_witness(stmt, asm.stmt)); // names the witnesses of the postcondition's `exists`
         lemma_enc_opcode(asm.stmt, number);
         // C15 "never ends the session": the instruction handed to the VM cannot take one of its error exits
         assert(!(step_spec(view(*state), instr, features::stack_spec()) is Exit));
@@ -154,15 +187,20 @@ impl AsmLine {
             final(sym)@ == old(sym)@,
             // refused (parse error, undefined label, offset out of range): no effect
             r is Err ==> *final(state) == *old(state),
-            // accepted: either one of the off-limits instructions (reported, no effect), or the machine did exactly the
-            // ISA step of the encoding of an allowed statement whose labels are resolved, numbered `pc - orig`
-            r is Ok ==> *final(state) == *old(state) || exists|st: AirStmt| #[trigger] eval_allowed(st) && stmt_labels_filled(st)
-                && enc_spec(st, eval_number(*old(state))) is Some
-                && match step_spec(view(*old(state)), enc_spec(st, eval_number(*old(state)))->Some_0, features::stack_spec()) {
-                    Step::Next(s) => mstate_eq(view(*final(state)), s),
-                    Step::Exit(c) => false,
-                    Step::Unspecified => only_r0_changed(view(*old(state)), view(*final(state))),
-                },
+            // accepted: the text denotes exactly one statement st0 (tokens -> operands per the C01 operand table). If st0 is
+            // off-limits (BR*, RTI, HALT, unknown trap vector) nothing happens; otherwise the machine does exactly the ISA step of
+            // the encoding of st0 — label operand resolved through the symbol table — numbered `pc - orig` (so that the label
+            // denotes its own address, lemma_eval_label_target)
+            r is Ok ==> exists|st0: AirStmt, st: AirStmt| #[trigger] eval_witness(st0, st)
+                && text_denotes(line, eval_number(*old(state)), old(sym)@, st0)
+                && (if !eval_allowed(st0) { *final(state) == *old(state) } else {
+                    stmt_resolved(st0, st, old(sym)@) && stmt_labels_filled(st) && enc_spec(st, eval_number(*old(state))) is Some
+                    && match step_spec(view(*old(state)), enc_spec(st, eval_number(*old(state)))->Some_0, features::stack_spec()) {
+                        Step::Next(s) => if is_linking(st) { mstate_eq_but_r7(view(*final(state)), s) } else { mstate_eq(view(*final(state)), s) },
+                        Step::Exit(c) => false,
+                        Step::Unspecified => only_r0_changed(view(*old(state)), view(*final(state))),
+                    }
+                }),
 //@end
 
 } // verus!
